@@ -101,6 +101,10 @@ func runWorker(args []string) int {
 	var err error
 	switch engine {
 	case "reng":
+		if wa.extra["slowpunch"] == "1" {
+			err = reng.RunSlowPunch(wa.prop, wa.seed, wa.worker, wa.cases, wa.scratch, wa.out)
+			break
+		}
 		err = reng.RunWorker(wa.prop, wa.seed, wa.worker, wa.cases, wa.scratch, wa.out)
 	default:
 		err = runOtherWorker(engine, wa)
